@@ -45,6 +45,7 @@ CellEq(a0, b0) ==
          [] a.ty = "flag" -> a.b = b.b
          [] a.ty = "int"  -> a.i = b.i
          [] a.ty = "str"  -> a.s = b.s
+         [] a.ty = "real" -> a.s = b.s          \* reals are opaque literals in the models that use them as keys
          [] a.ty = "bits" -> a.b = b.b
          [] a.ty = "vec"  -> /\ Len(a.items) = Len(b.items)
                              /\ \A k \in 1..Len(a.items) : CellEq(a.items[k], b.items[k])
